@@ -30,8 +30,8 @@ for cf in sorted(glob.glob('/tmp/seeded-results/*.confirm.json')):
         try:
             d = json.load(open(df))
             for p, v in d.items():
-                if isinstance(v, dict):
-                    det.setdefault(p, []).append({'exit': v['exit'], 'first_lines': v['lines'][:2]})
+                if isinstance(v, dict) and p not in det:     # first detection only; later runs: seeded_redetect.py
+                    det[p] = [{'exit': v['exit'], 'first_lines': v['lines'][:2], 'when': 'first run, right after confirmation'}]
         except Exception:
             pass
     out = {
